@@ -10,6 +10,10 @@
 // signal) to the journalled call, restarts behind it, and re-runs CPU-budget candidates alone with
 // twice the budget.
 //
+// Besides the seeded cases every run executes the fixed CORE set (core.go): hand-written cyclic /
+// self-referential / shared-kid structures for every recursive structure pdfcpu walks, and every
+// pdfgen hostile kind.
+//
 //	violation keys:  entry=<E>/panic=<innermost pdfcpu frame>      a panic escaped entry point E
 //	                 entry=<E>/class=stack-overflow/cycle=<fn>     the child died of stack exhaustion
 //	                 entry=<E>/class=cpu-bound                     > 20 s CPU per 256 KB input, twice
@@ -153,6 +157,7 @@ func run(t *vk.T) {
 	t.Rule("case = one hostile input (seeded mutation of a corpus/pdfgen seed, see kinds) fed to ReadContext, Validate relaxed+strict, Optimize and up to 8 further entry points " +
 		"(non-PDF inputs: the entry points of their kind); non-trivial = the input got past header/xref/trailer parsing and object loading (api.ReadContext returned a context; " +
 		"aux kinds: at least one entry point accepted the input); per entry point observed: calls / read_ok (input past xref+load) / valid_ok (relaxed validation passed, so entry-specific code ran) / ok")
+	t.Assume("core set (the same in every run and tier, independent of VERIF_SEED): core-struct = hand-written documents < 16 KB with one recursive structure made cyclic / self-referential / 120 deep / a 40-level lattice of shared kids (families x shapes, see core.go), fed ungated to the four fixed entry points and 4 structure-specific ones (rotating over the shapes of a family); core-hostile = every pdfgen graph attack, bomb kind, nesting shape and structural override class on two fixed base documents. A core-struct call above 3 s CPU is a candidate (after it only the fixed entry points of that case still run); the verdict is the re-run alone under twice the property's budget as for every other case; candidates are re-run per (entry point, busy function) until one is confirmed")
 	t.Assume("time clause restated: CPU seconds of the child (RUSAGE_SELF delta, one call at a time, GOMAXPROCS=2) <= 20 s per 256 KB of input with default limits; a first excess is re-run alone with twice the budget")
 	t.Assume("out-of-memory deaths (4 GiB RLIMIT_AS) and wall-clock watchdog firings are inconclusive here (memory is C09's topic)")
 	t.Assume("a panic that pdfcpu recovers internally and returns as an error is not a violation; only what escapes the public entry point is")
@@ -322,6 +327,26 @@ func run(t *vk.T) {
 	defer r.ag.mu.Unlock()
 	for k, v := range r.ag.counts {
 		t.Count(k, v)
+	}
+	if len(core) > 0 {
+		fam := map[string]bool{}
+		nStruct := 0
+		for _, c := range core {
+			if c.Kind == "core-struct" {
+				nStruct++
+				fam[strings.SplitN(c.Desc, "/", 2)[0]] = true
+			}
+		}
+		var fams []string
+		for f := range fam {
+			fams = append(fams, f)
+		}
+		sort.Strings(fams)
+		var shapes []string
+		for _, g := range coreShapes() {
+			shapes = append(shapes, g.name)
+		}
+		t.Extra("core_set", map[string]any{"struct_cases": nStruct, "hostile_cases": len(core) - nStruct, "struct_families": fams, "shapes": shapes, "hostile_kinds": coreHostileKinds()})
 	}
 	t.Extra("slowest_calls", r.ag.slow)
 	t.Extra("cases", nCases)
